@@ -5,7 +5,7 @@
 (*   UpdateStateForIterativeAction / ActionIterationWantsToStopBySignal    *)
 (* of common/concertina_lib.py, and the refinement                         *)
 (*        ConcertinaImpl => Concertina                                     *)
-(* checked by TLC over every configuration in ConfigSeq (the input file).  *)
+(* checked by TLC over every configuration of the input file.             *)
 (*                                                                         *)
 (* This module carries NO verdict about the code (DESIGN.md R1): it is the *)
 (* design-level argument that the algorithm meets the abstract property,   *)
@@ -19,7 +19,8 @@
 (***************************************************************************)
 EXTENDS ConcertinaCfg, TLC
 
-VARIABLES ci,         \* configuration index
+VARIABLES ci,         \* line of the input file
+          cfg,        \* its configuration (constant along a behaviour)
           toRun,      \* self.actions_to_run
           itDone,     \* self.action_iterations_complete (members only count)
           complete,   \* self.complete_actions
@@ -31,11 +32,14 @@ VARIABLES ci,         \* configuration index
           log,        \* Seq of <<"run", a>> / <<"raise", i>>
           phase       \* "run" | "done" | "stuck" (SortActions assertion)
 
-ivars == <<ci, toRun, itDone, complete, wrench, stopped, files, mcalls, calls,
+ivars == <<ci, cfg, toRun, itDone, complete, wrench, stopped, files, mcalls, calls,
            log, phase>>
 
 IRange(s) == {s[k] : k \in DOMAIN s}
-c0 == ConfigSeq[ci]
+(* cfg is a function of ci: states are told apart without hashing it *)
+IView == <<ci, toRun, itDone, complete, wrench, stopped, files, mcalls, calls,
+           log, phase>>
+c0 == cfg
 
 (* ---------------- UnderstandIterations ---------------- *)
 IIterated(c, a) == c.itof[a] # 0
@@ -98,17 +102,18 @@ SortActions(c) == SortLoop(c, [toAssign |-> 1..c.n, done |-> {},
 
 (* ---------------- __init__ ---------------- *)
 Init ==
-  /\ ci \in DOMAIN ConfigSeq
-  /\ LET s == SortActions(ConfigSeq[ci])
+  /\ ci \in DOMAIN Lines
+  /\ cfg = ConfigOf(ci)
+  /\ LET s == SortActions(cfg)
      IN /\ toRun = s.result
         /\ phase = IF s.stuck THEN "stuck" ELSE "run"
-  /\ itDone = [a \in 1..ConfigSeq[ci].n |-> 0]
+  /\ itDone = [a \in 1..cfg.n |-> 0]
   /\ complete = {}
   /\ wrench = {}
   /\ stopped = {}
   /\ files = {}
-  /\ mcalls = [i \in DOMAIN ConfigSeq[ci].iters |-> 0]
-  /\ calls = [a \in 1..ConfigSeq[ci].n |-> 0]
+  /\ mcalls = [i \in DOMAIN cfg.iters |-> 0]
+  /\ calls = [a \in 1..cfg.n |-> 0]
   /\ log = <<>>
 
 (* ---------------- environment ---------------- *)
@@ -121,7 +126,7 @@ EnvRaise(i) ==
   /\ RaiseDue(i)
   /\ files' = files \cup {i}
   /\ log' = Append(log, <<"raise", i>>)
-  /\ UNCHANGED <<ci, toRun, itDone, complete, wrench, stopped, mcalls, calls,
+  /\ UNCHANGED <<ci, cfg, toRun, itDone, complete, wrench, stopped, mcalls, calls,
                  phase>>
 
 (* ---------------- RunOneAction / UpdateStateForIterativeAction -------- *)
@@ -135,7 +140,7 @@ InsertAt(q, k, a) == SubSeq(q, 1, k) \o <<a>> \o SubSeq(q, k + 1, Len(q))
 Common(a) ==
   /\ calls' = [calls EXCEPT ![a] = @ + 1]
   /\ log' = Append(log, <<"run", a>>)
-  /\ UNCHANGED <<ci, files, phase>>
+  /\ UNCHANGED <<ci, cfg, files, phase>>
 
 (* RunOneAction is called while actions_to_run is not empty; the harness's *)
 (* engine writes a due signal file before the call's state update          *)
@@ -192,7 +197,7 @@ RunOne == RunPlainI \/ RunLastI \/ RunStoppedI \/ RunRequeueI
 
 Finish == /\ phase = "run" /\ toRun = <<>>
           /\ phase' = "done"
-          /\ UNCHANGED <<ci, toRun, itDone, complete, wrench, stopped, files,
+          /\ UNCHANGED <<ci, cfg, toRun, itDone, complete, wrench, stopped, files,
                          mcalls, calls, log>>
 
 DoEnvRaise == \E i \in DOMAIN c0.iters : EnvRaise(i)
